@@ -48,24 +48,26 @@ fn documents() -> Vec<(&'static str, &'static str, String)> {
         ("bad_version", "parse_error", "---\npolicy-version: 1\n---\n```policy\naction a() {}\n```\n".to_string()),
         ("undefined_name", "compile_error", with_cmd("action a() { let x = y\n publish Foo { a: x } }")),
         ("type_error", "compile_error", with_cmd("action a() { publish Foo { a: true } }")),
-        ("unknown_ffi_module", "compile_error", with_cmd("use nomodule\naction a() { publish Foo { a: 1 } }")),
-        ("fn_missing_return", "validation:function", with_cmd("function b() int {\n if false {\n return 0\n }\n}\naction a() { publish Foo { a: b() } }")),
-        ("fn_missing_return_else", "validation:function", with_cmd("function e() int {\n let n = 0\n if n > 0 {\n }\n else {\n return 0\n }\n}\naction a() { publish Foo { a: e() } }")),
-        ("value_set_twice", "validation:value", with_cmd("function v(c bool) int {\n if c { let x = 1 }\n if c { let x = 2 }\n return 0\n}\naction a() { publish Foo { a: v(true) } }")),
+        ("unused_ffi_import", "valid", with_cmd("use nomodule\naction a() { publish Foo { a: 1 } }")),
+        ("fn_missing_return", "validation:function", with_cmd("function b() int {\n if false {\n return 0\n }\n}\naction a() { publish Foo { a: 1 } }")),
+        ("fn_missing_return_else", "validation:function", with_cmd("function e() int {\n let n = 0\n if n > 0 {\n }\n else {\n return 0\n }\n}\naction a() { publish Foo { a: 1 } }")),
+        ("value_set_twice", "validation:value", with_cmd("function v(c bool) int {\n if c { let x = 1 }\n if c { let x = 2 }\n return 0\n}\naction a() { publish Foo { a: 1 } }")),
         ("action_branch_without_publish", "validation:action", with_cmd("action f() {\n if true {\n publish Foo { a: 0 }\n }\n}")),
         ("action_else_chain_without_publish", "validation:action", with_cmd("action g() {\n if true {\n }\n else if false {\n }\n else {\n publish Foo { a: 0 }\n }\n}")),
         (
             "command_branch_without_finish",
-            "validation:finish",
+            "valid",
             doc("struct Envelope { payload bytes }\ncommand Bar {\n fields { a int }\n seal { return Envelope { payload: payload } }\n open { return Unit }\n policy {\n if this.a > 0 {\n finish {}\n }\n }\n}\naction a() { publish Bar { a: 1 } }"),
         ),
         (
             "command_match_arm_without_finish",
-            "validation:finish",
+            "valid",
             doc("struct Envelope { payload bytes }\ncommand Bar {\n fields { a int }\n seal { return Envelope { payload: payload } }\n open { return Unit }\n policy {\n match this.a {\n 0 => { finish {} }\n _ => { }\n }\n }\n}\naction a() { publish Bar { a: 1 } }"),
         ),
         ("valid_action_command", "valid", with_cmd("action a(n int) {\n if n > 0 {\n publish Foo { a: n }\n } else {\n publish Foo { a: 0 }\n }\n}")),
-        ("valid_functions", "valid", with_cmd("function h(n int) int {\n match n {\n 0 => { return 0 }\n _ => { return n }\n }\n}\naction a() { publish Foo { a: h(2) } }")),
+        ("valid_functions", "valid", with_cmd("function h(n int) int {\n match n {\n 0 => { return 0 }\n _ => { return n }\n }\n}\naction a() { publish Foo { a: 2 } }")),
+        // the library validator reports "no publish" here (the callee's Return precedes the Publish); the oracle is the library
+        ("action_calls_function_before_publish", "validation:action", with_cmd("function h(n int) int {\n return n\n}\naction a() { publish Foo { a: h(2) } }")),
         ("valid_with_ffi_call", "valid_needs_stub_ffi", with_cmd("use extmod\naction a() { publish Foo { a: extmod::get(1) } }")),
         ("valid_with_ffi_invalid_action", "validation:action", with_cmd("use extmod\naction a() {\n if extmod::yes() {\n publish Foo { a: 1 }\n }\n}")),
     ]
@@ -196,6 +198,15 @@ struct Row {
 }
 
 pub fn run(args: &Args) {
+    if args.extra.contains_key("dump") {
+        for d in documents() {
+            for stub in [false, true] {
+                let o = oracle(&d.2, stub);
+                println!("{:40} intended={:24} stub_ffi={stub} -> {:?}", d.0, d.1, o);
+            }
+        }
+        std::process::exit(0);
+    }
     let mut rep = Report::new(args, Level::Exploration);
     let repo = PathBuf::from(std::env::var("VERIF_REPO").unwrap_or_else(|_| "/repo".into()));
     let t0 = std::time::Instant::now();
@@ -324,9 +335,9 @@ pub fn run(args: &Args) {
     rep.set("decision_table", table);
     rep.set("distinct_nontrivial", nontrivial.len() as u64);
     rep.set("documents", docs.iter().map(|d| json!({"name": d.0, "intended": d.1})).collect::<Vec<_>>());
-    rep.set("rule", "decision table: 17 documents (parse errors, compile errors, one or more per validator analyzer failure, valid with and without FFI use) × {∅, --no-validate} × {∅, --stub-ffi} × {default output path, -o}; each row runs the freshly built policy-compiler binary; oracle computed in-process from parse_policy_document / Compiler / validate. non-trivial = distinct rows whose document parses (gets past the CLI's first check)");
+    rep.set("rule", "decision table: 18 documents (parse errors, compile errors, one or more per validator analyzer that can fail on compiler output (function return, value set twice, action publish), valid with and without FFI use) × {∅, --no-validate} × {∅, --stub-ffi} × {default output path, -o}; each row runs the freshly built policy-compiler binary; oracle computed in-process from parse_policy_document / Compiler / validate. non-trivial = distinct rows whose document parses (gets past the CLI's first check)");
     rep.set("exhaustive", true);
-    for c in ["rows_parse_error", "rows_compile_error", "rows_validation_failure", "rows_valid", "rows_failing_analyzer_function", "rows_failing_analyzer_value", "rows_failing_analyzer_action", "rows_failing_analyzer_finish"] {
+    for c in ["rows_parse_error", "rows_compile_error", "rows_validation_failure", "rows_valid", "rows_failing_analyzer_function", "rows_failing_analyzer_value", "rows_failing_analyzer_action"] {
         rep.require_nonzero(c);
     }
     rep.assume("with --stub-ffi the tool documents that it writes no module; those rows are judged on the exit status only");
